@@ -510,6 +510,7 @@ def run(ctx: Ctx, rep: Report) -> None:
     rep.rule("C15-R1", "every value returned or yielded by a public wrapper method is free of raw (x690 / ObjectIdentifier / VarBind) leaves, keys included", floor=8)
     rep.rule("C15-R2", "conversions iterate the raw result once, unfiltered and in order", floor=6)
     rep.rule("C15-R3", "every SNMP value type wraps a builtin python type", floor=7)
+    rep.rule("C15-R4", "the wrapper hands its arguments to the raw client one-to-one: OIDs converted element by element (complete, in order), same-named options forwarded unchanged", floor=6)
     rep.assumptions += ["BulkResult (a plain dataclass of two dicts) is the documented container of bulkget and is accepted as such; its fields must be builtin"]
     wrapper = ctx.wrapper()
     client = ctx.client()
@@ -534,6 +535,7 @@ def run(ctx: Ctx, rep: Report) -> None:
             )
         issues = [(n, msg) for m, n, msg in ev.shape_issues if m == meth]
         rep.check(not issues, "C15-R2", site, f"{meth.name}: the raw result is converted item by item, unfiltered and in order", "; ".join(f"line {getattr(n, 'lineno', '?')}: {msg}" for n, msg in issues), key=f"{meth.key}|shape")
+    check_forwarding(ctx, rep, wrapper, client, ev.client_attr)
     # from_raw
     pyvb = ctx.u.cls("puresnmp.varbind:PyVarBind")
     fr = pyvb.methods.get("from_raw")
@@ -594,3 +596,90 @@ def thorough(ctx: Ctx, rep: Report) -> None:
         # a BulkResult container is accepted; its arguments are listed separately as return-arg<i>
         ok = not raw
         rep.check(ok, "C15-T1", f"puresnmp/api/pythonic.py:{item['line']} (PyWrapper.{item['method']})", f"{item['kind']} of {item['method']}: inferred type `{typ}` is builtin-only", f"mentions {raw}", key=f"PyWrapper.{item['method']}|mypy-type|{item['kind']}")
+
+
+def check_forwarding(ctx: Ctx, rep: Report, wrapper: ClassInfo, client: ClassInfo, client_attr: str) -> None:
+    """
+    C15-R4: what the wrapper asks the raw client for is what its caller asked for.  For every public method that
+    calls `self.<client>.<op>(...)`: an argument that derives from a wrapper parameter is that parameter itself or
+    its element-wise ObjectIdentifier conversion (no filter, no helper that may drop or reorder elements); a wrapper
+    parameter that has the name of a raw parameter is passed on unchanged; no wrapper parameter is left unused.
+    """
+    from ..engine.context import bind_call_args
+
+    for name, meth in sorted(wrapper.methods.items()):
+        if name.startswith("_"):
+            continue
+        calls = [
+            n for n in own_nodes(meth.node)
+            if isinstance(n, ast.Call) and isinstance(n.func, ast.Attribute) and isinstance(n.func.value, ast.Attribute) and n.func.value.attr == client_attr and isinstance(n.func.value.value, ast.Name) and n.func.value.value.id == "self"
+        ]
+        if len(calls) != 1:
+            continue  # delegates to another wrapper method (set -> multiset) or does not talk to the client
+        call = calls[0]
+        raw = ctx.r.method(client, call.func.attr)
+        if raw is None:
+            rep.undecided("C15-R4", meth.site(call), f"{name}: the raw operation exists", call.func.attr)
+            continue
+        defs = ctx.defs(meth)
+        params = [p for p in meth.params if p != "self"]
+        bound = bind_call_args(call, raw.params, skip_self=True)
+        expanded = {q: ctx.xexpand(meth, a, depth=2, stop=params) for q, a in bound.items()}  # small conversion helpers are looked through
+        problems = []
+        used = set()
+        for q, exp in expanded.items():
+            mentioned = [p for p in params if any(isinstance(n, ast.Name) and n.id == p for n in ast.walk(exp))]
+            used.update(mentioned)
+            for p in mentioned:
+                if not faithful_conversion(exp, p):
+                    problems.append(f"{q} = {norm(exp)[:70]} is not `{p}` or its element-wise ObjectIdentifier conversion")
+        for p in params:
+            if p in raw.params:
+                arg = expanded.get(p)
+                if arg is None or not faithful_conversion(arg, p):
+                    problems.append(f"`{p}` is not forwarded to the raw parameter of the same name ({norm(arg)[:60] if arg is not None else 'not passed'})")
+                used.add(p)
+        for p in params:
+            if p not in used:
+                problems.append(f"parameter `{p}` never reaches the raw client")
+        rep.check(not problems, "C15-R4", meth.site(call), f"{name}: arguments reach client.{call.func.attr} one-to-one", "; ".join(problems), key=f"{meth.key}|argument-forwarding")
+
+
+def faithful_conversion(exp: ast.AST, param: str) -> bool:
+    """`p`, `ObjectIdentifier(p)`, `[ObjectIdentifier(x) for x in p]`, `{ObjectIdentifier(k): v for k, v in p.items()}`, `[ObjectIdentifier(p)]`."""
+    exp = strip_casts(exp)
+
+    def is_param(e: ast.AST) -> bool:
+        e = strip_casts(e)
+        if isinstance(e, ast.Name):
+            return e.id == param
+        if isinstance(e, ast.Call) and isinstance(e.func, ast.Name) and e.func.id in ("list", "tuple", "iter") and len(e.args) == 1 and not e.keywords:
+            return is_param(e.args[0])
+        return False
+
+    def oid_of(e: ast.AST, name: str) -> bool:
+        e = strip_casts(e)
+        if isinstance(e, ast.Name):
+            return e.id == name
+        return isinstance(e, ast.Call) and norm(e.func).split(".")[-1] == "ObjectIdentifier" and len(e.args) == 1 and isinstance(strip_casts(e.args[0]), ast.Name) and strip_casts(e.args[0]).id == name
+
+    if is_param(exp) or oid_of(exp, param):
+        return True
+    if isinstance(exp, ast.Call) and isinstance(exp.func, ast.Name) and exp.func.id in ("list", "tuple") and len(exp.args) == 1 and not exp.keywords:
+        return faithful_conversion(exp.args[0], param)
+    if isinstance(exp, ast.Call) and isinstance(exp.func, ast.Name) and exp.func.id == "map" and len(exp.args) == 2:
+        return norm(exp.args[0]).split(".")[-1] == "ObjectIdentifier" and is_param(exp.args[1])
+    if isinstance(exp, (ast.List, ast.Tuple)) and len(exp.elts) == 1:
+        return oid_of(exp.elts[0], param)
+    if isinstance(exp, (ast.ListComp, ast.GeneratorExp)) and len(exp.generators) == 1:
+        gen = exp.generators[0]
+        return not gen.ifs and is_param(gen.iter) and isinstance(gen.target, ast.Name) and oid_of(exp.elt, gen.target.id)
+    if isinstance(exp, ast.DictComp) and len(exp.generators) == 1:
+        gen = exp.generators[0]
+        it = gen.iter
+        items = isinstance(it, ast.Call) and isinstance(it.func, ast.Attribute) and it.func.attr == "items" and is_param(it.func.value)
+        if gen.ifs or not items or not (isinstance(gen.target, ast.Tuple) and len(gen.target.elts) == 2 and all(isinstance(t, ast.Name) for t in gen.target.elts)):
+            return False
+        k, v = gen.target.elts[0].id, gen.target.elts[1].id
+        return oid_of(exp.key, k) and isinstance(strip_casts(exp.value), ast.Name) and strip_casts(exp.value).id == v
+    return False
